@@ -124,7 +124,7 @@ CHECKS = {
              "volume is non-increasing and (sqrt contract) explicitly Lipschitz in the multiplier, so the returned design has volume within C*l1l2tol of the target when it is reachable; the bisection keeps vol(l1) > maxvol >= vol(l2) and exits with l2 - l1 <= tolerance; write-back slices concatenate to the design; the bisection terminates after log2((l2-l1)/tol) passes; the update of the separable objective is independent of the current design and optimal in the move-limited box when the volume is met. Float model vs the real loop at every network response; "
              "oracle: bounds, move, volume tolerance bound, convergence to x* ~ sqrt(c).",
         ref="§5 C17", technique="Lean 4 proof (clip lemmas, induction over iterations and bisection passes, termination by halving, term-wise Lagrangian minimum for the separable objective) + Float-model correspondence + oracle",
-        note=NOTE_COMMON + "Volume tolerance is proved under the sqrt contract (SqrtOK, satisfied by Real.sqrt): explicit Lipschitz constant of the volume in the multiplier (oc_volume_lipschitz), |sum(xnew) - maxvol| <= A*l1l2tol/(2*l1*sqrt(l1)) on exit (oc_volume_tolerance) and an a-priori C*l1l2tol bound whenever the target is reachable (oc_volume_tolerance_reachable, oc_iteration_volume). Termination of the bisection is a theorem (oc_bisection_terminates, oc_iteration_terminates: k passes once l2init-l1init <= l1l2tol*2^k). For the separable objective sum c_i/x_i the un-clipped update is sqrt(c_i/lambda) whatever the current design is (oc_separable_update) and the update whose volume meets the target minimises the objective over the move-limited box with at most that volume (oc_separable_optimal): the analytic optimum in one step where the move limits do not bind. PARTIAL: convergence over several iterations with binding move limits (and the influence of the bisection tolerance on it) is observed only."),
+        note=NOTE_COMMON + "Volume tolerance is proved under the sqrt contract (SqrtOK, satisfied by Real.sqrt): explicit Lipschitz constant of the volume in the multiplier (oc_volume_lipschitz), |sum(xnew) - maxvol| <= A*l1l2tol/(2*l1*sqrt(l1)) on exit (oc_volume_tolerance) and an a-priori C*l1l2tol bound whenever the target is reachable (oc_volume_tolerance_reachable, oc_iteration_volume). Termination of the bisection is a theorem (oc_bisection_terminates, oc_iteration_terminates: k passes once l2init-l1init <= l1l2tol*2^k). For the separable objective sum c_i/x_i the un-clipped update is sqrt(c_i/lambda) whatever the current design is (oc_separable_update) and the update whose volume meets the target minimises the objective over the move-limited box with at most that volume (oc_separable_optimal): the analytic optimum in one step where the move limits do not bind, and a fixed point of the update (oc_separable_fixed_point). PARTIAL: convergence over several iterations with binding move limits (and the influence of the bisection tolerance on it) is observed only."),
     "C07": dict(
         text="Lean theorems for every size, every number of rhs columns, any commutative ring and any exact inner solver (contract A*solve B = B, A^T*solveT B = B, satisfiable for every non-singular matrix): "
              "LinSolve returns X with A X = B (and rejects real-sparse + complex rhs), Inverse, SystemOfEquations (A x = b, x[p] = xp, b[f] = bf for every partition), StaticCondensation = Schur complement and reproduces the main-dof response; "
